@@ -1,24 +1,60 @@
 //! Native replay driver: runs the parser that the real `parol` generated for a grammar on an
-//! input text and prints the verdict and the semantic-action trace.
+//! input text and prints the verdict, the semantic-action trace and the parse-tree events.
 //! usage: genparser <input-file>
 #![allow(dead_code, unused_imports, clippy::all)]
 mod g;
 mod g_trait;
 mod parser;
 
+use parol_runtime::parser::parse_tree_type::TreeConstruct;
+use parol_runtime::{ParolError, Token};
+
+/// Records the tree-building calls of the parser.
+struct Recorder {
+    ev: Vec<String>,
+}
+impl<'t> TreeConstruct<'t> for Recorder {
+    type Error = ParolError;
+    type Tree = Vec<String>;
+    fn open_non_terminal(&mut self, name: &'static str, _size_hint: Option<usize>) -> Result<(), Self::Error> {
+        self.ev.push(format!("TREE O {name}"));
+        Ok(())
+    }
+    fn close_non_terminal(&mut self) -> Result<(), Self::Error> {
+        self.ev.push("TREE C".to_string());
+        Ok(())
+    }
+    fn add_token(&mut self, token: &Token<'t>) -> Result<(), Self::Error> {
+        self.ev.push(format!(
+            "TREE T {} {} {} {} {} {} {} {:?}",
+            token.token_type, token.location.start, token.location.end, token.location.start_line, token.location.start_column,
+            token.location.end_line, token.location.end_column, token.text()
+        ));
+        Ok(())
+    }
+    fn build(self) -> Result<Self::Tree, Self::Error> {
+        Ok(self.ev)
+    }
+}
+
 fn main() {
     let path = std::env::args().nth(1).expect("input file");
     let input = std::fs::read_to_string(&path).expect("readable input");
     let mut user = g::G::new();
-    let r = parser::parse(&input, &path, &mut user);
+    let mut rec = Recorder { ev: Vec::new() };
+    let r = std::panic::catch_unwind(std::panic::AssertUnwindSafe(|| parser::parse_into(&input, &mut rec, &path, &mut user)));
     for l in &user.log {
         println!("{l}");
     }
+    for l in &rec.ev {
+        println!("{l}");
+    }
     match r {
-        Ok(_) => println!("VERDICT ACCEPT"),
-        Err(e) => {
+        Err(_) => println!("VERDICT PANIC"),
+        Ok(Ok(_)) => println!("VERDICT ACCEPT"),
+        Ok(Err(e)) => {
             let s = format!("{e:?}");
-            println!("VERDICT REJECT {}", s.lines().next().unwrap_or("").chars().take(160).collect::<String>());
+            println!("VERDICT REJECT {}", s.lines().next().unwrap_or("").chars().take(200).collect::<String>());
         }
     }
 }
